@@ -131,6 +131,19 @@ def _wrap_stub(log):
     return to_180_range
 
 
+def _native_label_order(py, order_):
+    """a state minus itself, one operand with its labels stored in another order"""
+    a = pd.Series([55.0, 58.0, 150.0, 10.0, -5.0, 1.0, 1.2, -2.9, 170.0], index=NAMES)
+    first_order = [n_ for n_ in NAMES if n_ in order_]
+    try:
+        d1 = py.transform.compute_state_difference(a[first_order], a[order_])
+        d2 = py.transform.compute_state_difference(a[order_], a[first_order])
+        worst = float(max(np.max(np.abs(d1.values)), np.max(np.abs(d2.values))))
+        return dict(reproduced=bool(not (worst < 1e-9)), inputs=dict(state=a.to_dict(), label_order=order_), largest_entry_of_state_minus_itself=worst)
+    except Exception as exc:
+        return dict(reproduced=True, inputs=dict(state=a.to_dict(), label_order=order_), raised=repr(exc))
+
+
 def _series_algebra(ctx, py):
     T, S = py.transform, py.sim
     wraps = []
@@ -160,6 +173,44 @@ def _series_algebra(ctx, py):
         ctx.from_verdict("C18.diff.series.zero_against_itself[%s]" % nm, "a", field.check_zero(flat(d_aa)[i], domain=dom, seed=ctx.seed), None)
     ctx.ob("C18.diff.series.labels", "c", list(d_ab.index) == ERR and list(d_sub.index) == ["north", "east", "down", "heading", "roll", "pitch"], "symbolic-execution", 0.0,
            "lat/lon/alt renamed to north/east/down, other labels and their order kept (also for a column subset)")
+    # states are LABELLED data: the storage order of the labels of either operand must not matter (enumerated arrangements)
+    import random as _random
+    arrangements = {"reversed": NAMES[::-1], "attitude_first": NAMES[6:] + NAMES[3:6] + NAMES[:3], "alphabetical": sorted(NAMES),
+                    "subset_pos_att": ["heading", "alt", "roll", "lat", "pitch", "lon"]}
+    rng_ = _random.Random(ctx.seed)
+    for k_ in range(0 if ctx.tier == "quick" else 6):
+        perm = list(NAMES)
+        rng_.shuffle(perm)
+        arrangements["random%d" % k_] = perm
+    spec_by_label = None
+    for tag, order_ in arrangements.items():
+        t1 = time.time()
+        with rdomain(py, **stub):
+            va = {s.name: RSym(s) for s in list(A_) + list(B_)}
+            a_full, b_full = _series(va, A_), _series(va, B_)
+            first_order = [n_ for n_ in NAMES if n_ in order_]
+            d1 = T.compute_state_difference(a_full[first_order], b_full[order_])      # second operand re-ordered
+            d2 = T.compute_state_difference(a_full[order_], b_full[first_order])      # first operand re-ordered
+        if spec_by_label is None:
+            spec_by_label = dict(zip(ERR, diff_spec({s.name: s for s in list(A_) + list(B_)})))
+        rename = dict(lat="north", lon="east", alt="down")
+        want_labels = [rename.get(n_, n_) for n_ in NAMES if n_ in order_]
+        bad = []
+        for d_, which in ((d1, "second"), (d2, "first")):
+            if sorted(map(str, d_.index)) != sorted(want_labels):
+                bad.append("%s operand re-ordered: labels %s" % (which, list(d_.index)))
+                continue
+            for lab in want_labels:
+                cell = d_[lab]
+                v_ = field.check_zero(sp.sympify(cell.e if hasattr(cell, "e") else cell) - spec_by_label[lab], domain=dom, seed=ctx.seed)
+                if v_.status != "proved":
+                    bad.append("%s operand re-ordered: %s is %s (%s)" % (which, lab, v_.status, v_.detail[:80]))
+        native = None
+        if bad:
+            native = _native_label_order(py, order_)
+        ctx.ob("C18.diff.series.label_order[%s]" % tag, "a", not bad, "symbolic-execution+field-nf", time.time() - t1,
+               "labels stored as %s in one operand: every cell, looked up by label, is the spec difference" % order_ if not bad else "; ".join(bad)[:600],
+               cex=None if not bad else dict(order=order_), native=native)
     # wrap is applied to the angle entries and is the last operation on them
     _wrap_last(ctx, py)
     # first-order recovery of a perturbation
